@@ -529,9 +529,30 @@ def parseOp (s : String) : Option Op :=
   | ["interp", lv] => (parseList parseRat lv).map Op.interp
   | _ => none
 
-def runOps : St → List Op → List String
+/-- what the driver can be asked for: an operation of the property's list, or one of the two calls that leave a file
+for its caller to complete (`createVariable` in place, a copy without variables) — the states after those are not
+coherent by themselves (recorded findings C10/createVariable-in-place and C10/copy-without-variables) -/
+inductive XOp where
+  | op (o : Op)
+  | create (name : String)
+  | copynv
+deriving Repr
+
+def xstep (s : St) : XOp → Option St
+  | .op o => step s o
+  | .create n => some (putVar s ⟨n, if s.grid then stdG else stdB⟩)
+  | .copynv => some (copyNoVars s)
+
+/-- `create@NAME`, `copynv`, or an operation -/
+def parseXOp (t : String) : Option XOp :=
+  match t.splitOn "@" with
+  | ["create", n] => some (.create n)
+  | ["copynv"] => some .copynv
+  | _ => (parseOp t).map XOp.op
+
+def runOps : St → List XOp → List String
   | _, [] => []
-  | s, op :: rest => match step s op with
+  | s, op :: rest => match xstep s op with
     | some s' => ("ok " ++ showSt s') :: runOps s' rest
     | none => ["err"]
 
@@ -540,7 +561,7 @@ def run : List String → String
   | "run" :: toks =>
     match parseSt toks, (kvGet (parseKVs toks) "ops") with
     | some s, some ops =>
-      (match (ops.splitOn "|").mapM parseOp with
+      (match (ops.splitOn "|").mapM parseXOp with
        | some l => " || ".intercalate (runOps s l)
        | none => "err parse-ops")
     | _, _ => "err parse"
